@@ -161,6 +161,33 @@ func engineCLISearch(ctx *Ctx) {
 			histPath = filepath.Join(xdg, "wtf", "search_history.json")
 			ctx.R.Path("homes-with-xdg-config-home", 1)
 		}
+		if g%5 == 3 {
+			// a home that has been in use: the history file is full or almost full (max_size 100) when the first search runs; in
+			// two of three such homes its entries carry timestamps from a clock that ran ahead, or are not in timestamp order
+			nPre := []int{99, 100, 100}[r.Intn(3)]
+			tsMode := (g / 5) % 3
+			perm := r.Perm(nPre)
+			pre := c16ValidFileTS(nPre, "100", false, r.Intn(50), func(i int) int {
+				switch tsMode {
+				case 1:
+					if i >= nPre-2 {
+						return 20000000 + i // the newest entries are dated decades ahead
+					}
+				case 2:
+					return perm[i]
+				}
+				return i
+			})
+			os.MkdirAll(filepath.Dir(histPath), 0o755)
+			os.WriteFile(histPath, pre, 0o644)
+			if hf, ok := c17ReadHist(histPath); ok && len(hf.Entries) == nPre {
+				prevHist, prevQuery = nPre, hf.Entries[nPre-1].Query
+				ctx.R.Path("homes-with-a-full-history", 1)
+				if tsMode != 0 {
+					ctx.R.Path("homes-with-a-full-history-odd-timestamps", 1)
+				}
+			}
+		}
 		for s := 0; s < nSearch; s++ {
 			var raw string
 			switch r.Intn(8) {
@@ -434,6 +461,9 @@ func engineCLISearch(ctx *Ctx) {
 			if prevQuery == q && prevHist > 0 {
 				wantLen = prevHist
 			}
+			if wantLen > 100 { // the history keeps the newest 100
+				wantLen = 100
+			}
 			if len(hf.Entries) != wantLen {
 				ctx.R.Violate(vlib.Violation{Property: "C17", Clause: "history-length", Path: "search_history.json",
 					Detail: fmt.Sprintf("history has %d entries after this search, expected %d (previous %d, immediate repeat: %v)", len(hf.Entries), wantLen, prevHist, prevQuery == q), Witness: cs})
@@ -449,6 +479,96 @@ func engineCLISearch(ctx *Ctx) {
 			}
 		}
 		os.RemoveAll(base)
+	}
+	c17BrokenPipe(ctx, r)
+}
+
+// c17BrokenPipe: the reader of the output goes away after the first line (`wtf ... | head -n 1`) while the answer is far
+// larger than a pipe buffer. However the process ends, the search leaves its entry in the history.
+func c17BrokenPipe(ctx *Ctx, r *rand.Rand) {
+	base := filepath.Join(ctx.Scratch, "cs-pipe")
+	defer os.RemoveAll(base)
+	var cmds []vlib.Cmd
+	for i := 0; i < 160; i++ {
+		cmds = append(cmds, vlib.Cmd{Command: fmt.Sprintf("bigtool%d --flag", i), Description: "report " + strings.Repeat(fmt.Sprintf("verbose%d text ", i), 150), Keywords: []string{"report"}})
+	}
+	for k := 0; k < ctx.Pick(2, 12); k++ {
+		h := NewHome(filepath.Join(base, fmt.Sprintf("h%d", k)))
+		dbp := filepath.Join(base, "big.yml")
+		vlib.WriteYAML(dbp, cmds)
+		q := []string{"report", "report verbose1", "REPORT text"}[r.Intn(3)]
+		if q == "report" {
+			q = "report text"
+		}
+		format := []string{"list", "json"}[r.Intn(2)] // the table format cuts its cells short: its output stays below a pipe buffer
+		args := []string{"--database", dbp, "--all-platforms", "--limit", "100", "--format", format, "-v", "--", q}
+		cs := map[string]interface{}{"class": "reader-closes-the-pipe-after-one-line", "args_quoted": fmt.Sprintf("%q", args)}
+		ctx.R.Begin(cs)
+		ctx.R.Eval(1)
+		full := h.Wtf(ctx.Wtf, nil, args...)
+		os.Remove(h.History())
+		// the reader takes the output up to a few KiB into the result block (so the search has run and its answer is being
+		// printed), then closes its end of the pipe
+		cmd := exec.Command(ctx.Wtf, args...)
+		cmd.Dir = h.Cwd
+		cmd.Env = []string{"HOME=" + h.Dir, "PATH=/usr/bin:/bin", "LANG=C.UTF-8", "GOTRACEBACK=all"}
+		var stderr bytes.Buffer
+		cmd.Stderr = &stderr
+		pipe, perr := cmd.StdoutPipe()
+		if perr != nil || cmd.Start() != nil {
+			ctx.R.Inconcl("cannot start the binary with a pipe")
+			continue
+		}
+		var got []byte
+		buf := make([]byte, 512)
+		for {
+			n, err := pipe.Read(buf)
+			got = append(got, buf[:n]...)
+			if i := bytes.Index(got, []byte("Searching for: ")); i >= 0 && len(got) > i+4000 {
+				break
+			}
+			if err != nil {
+				break
+			}
+		}
+		pipe.Close()
+		done := make(chan struct{})
+		go func() { cmd.Wait(); close(done) }()
+		select {
+		case <-done:
+		case <-time.After(60 * time.Second):
+			cmd.Process.Kill()
+			<-done
+		}
+		res := CLIResult{Stdout: string(got), Stderr: stderr.String()}
+		if len(got) < 4000 || len(full.Stdout) < 70000 {
+			ctx.R.Inconcl("answer too small for the broken-pipe case")
+			continue
+		}
+		ctx.R.Path("broken-pipe-runs", 1)
+		if len(full.Stdout) > 70000 {
+			ctx.R.Path("broken-pipe-runs-with-output-over-64KiB", 1)
+			ctx.R.Nontriv("broken-pipe", k, q, format)
+		}
+		if strings.Contains(res.Stderr, "panic:") || strings.Contains(res.Stderr, "fatal error:") {
+			ctx.R.Violate(vlib.Violation{Property: "C17", Clause: "command-crashes", Path: "wtf search | reader that leaves early", Detail: "panic when the reader of the output went away",
+				Witness: map[string]interface{}{"case": cs, "stderr": vlib.Trunc(res.Stderr, 1200)}})
+			continue
+		}
+		want, err := validation.ValidateQuery(q)
+		hf, ok := c17ReadHist(h.History())
+		if err != nil {
+			continue
+		}
+		if !ok || len(hf.Entries) != 1 || hf.Entries[0].Query != want {
+			n := -1
+			if ok {
+				n = len(hf.Entries)
+			}
+			ctx.R.Violate(vlib.Violation{Property: "C17", Clause: "history-missing-or-unreadable", Path: "wtf search | reader that leaves early",
+				Detail:  fmt.Sprintf("the search printed %d bytes when read to the end; with a reader that closes the pipe a few KiB into the result block the history holds %d entries (readable: %v) instead of the one entry for %s", len(full.Stdout), n, ok, vlib.Q(want)),
+				Witness: cs})
+		}
 	}
 }
 
